@@ -17,6 +17,7 @@ import (
 	"net"
 	"os"
 	"path/filepath"
+	"strings"
 	"sync"
 	"time"
 
@@ -31,7 +32,9 @@ const hangDeadline = 60 * time.Second
 type call struct {
 	kind      byte // request code the invoked handler belongs to (43 CoA handler, 40 Disconnect handler)
 	sessionID string
-	ok        bool // result the handler returned
+	ok        bool   // result the handler returned
+	msgLen    int    // length of the Reply-Message text the handler returned
+	cause     uint32 // Error-Cause the handler returned (0 = none)
 }
 
 type result struct {
@@ -101,14 +104,14 @@ func (fx *fixture) start() {
 			fx.mu.Lock()
 			defer fx.mu.Unlock()
 			r := fx.scriptFor(req.SessionID)
-			fx.calls = append(fx.calls, call{codeCoARequest, req.SessionID, r.ok})
+			fx.calls = append(fx.calls, call{codeCoARequest, req.SessionID, r.ok, len(r.msg), r.cause})
 			return &radius.CoAResponse{Success: r.ok, ErrorCause: r.cause, Message: r.msg}
 		})
 		srv.SetDisconnectHandler(func(_ context.Context, req *radius.DisconnectRequest) *radius.DisconnectResponse {
 			fx.mu.Lock()
 			defer fx.mu.Unlock()
 			r := fx.scriptFor(req.SessionID)
-			fx.calls = append(fx.calls, call{codeDisconnectRequest, req.SessionID, r.ok})
+			fx.calls = append(fx.calls, call{codeDisconnectRequest, req.SessionID, r.ok, len(r.msg), r.cause})
 			return &radius.DisconnectResponse{Success: r.ok, ErrorCause: r.cause, Message: r.msg}
 		})
 	case modeProcessor:
@@ -137,14 +140,14 @@ func (fx *fixture) start() {
 		srv.SetCoAHandler(func(ctx context.Context, req *radius.CoARequest) *radius.CoAResponse {
 			r := p.HandleCoA(ctx, req)
 			fx.mu.Lock()
-			fx.calls = append(fx.calls, call{codeCoARequest, req.SessionID, r.Success})
+			fx.calls = append(fx.calls, call{codeCoARequest, req.SessionID, r.Success, len(r.Message), r.ErrorCause})
 			fx.mu.Unlock()
 			return r
 		})
 		srv.SetDisconnectHandler(func(ctx context.Context, req *radius.DisconnectRequest) *radius.DisconnectResponse {
 			r := p.HandleDisconnect(ctx, req)
 			fx.mu.Lock()
-			fx.calls = append(fx.calls, call{codeDisconnectRequest, req.SessionID, r.Success})
+			fx.calls = append(fx.calls, call{codeDisconnectRequest, req.SessionID, r.Success, len(r.Message), r.ErrorCause})
 			fx.mu.Unlock()
 			return r
 		})
@@ -305,6 +308,11 @@ func (fx *fixture) exchangeMany(ds [][]byte, dres result) observation {
 	sres := result{ok: fx.seq&2 == 0, cause: uint32(fx.seq&4) * 100, msg: ""}
 	if fx.seq&8 != 0 {
 		sres.msg = "sentinel"
+	}
+	// the handler outcome is a dimension of every case: the sentinel's Reply-Message length walks through
+	// the boundary lengths (a function of the case only: sequence number, datagram size, identifier)
+	if k := (fx.seq*31 + len(d)*17 + int(sid)) % (2 * len(replyMessageLens)); k < len(replyMessageLens) {
+		sres.msg = strings.Repeat("s", replyMessageLens[k])
 	}
 	sattrs := append([]byte{44, byte(2 + len(token))}, token...)
 	s := sign(scode, sid, sattrs, fx.secret)
